@@ -104,7 +104,10 @@ Fixpoint opt_vrange (fuel : nat) (e : vexp) (a b : nat) {struct fuel} : vexp :=
     (* ARM vector_range_optimizer scalar_vector<_,_> *)
     | VConst _ c => VConst (b - a) c
     (* ARM vector_range_optimizer unit_vector<_,_> *)
-    | VUnit _ idx c => VUnit (b - a) (idx - Z.of_nat a) c
+    (* as repaired (finding optimizer:subrange(unit_vector):index-before-start): a nonzero outside [start,end) is mapped to
+       index == size, i.e. the range has no nonzero element; before the repair the index was index() - start in size_t *)
+    | VUnit _ idx c =>
+        VUnit (b - a) (if (Z.of_nat a <=? idx) && (idx <? Z.of_nat b) then idx - Z.of_nat a else Z.of_nat (b - a)) c
     (* ARM vector_range_optimizer vector_unary<_,_> *)
     | VUn g e1 => VUn g (opt_vrange f e1 a b)
     (* ARM vector_range_optimizer vector_addition<_,_> *)
